@@ -620,8 +620,9 @@ impl<C: CrcCalculator> Encapsulator<C> {
         if protocol_type < MAX_MANDATORY_VAL_PTYPE {
             // the mandatory header extension replaces the protocol type
             // checking if the last extension id corresponds to this protocol type
+            // (otherwise no protocol type would be written after the last extension)
             if extensions.last().unwrap().id() != protocol_type
-                && matches!(
+                || !matches!(
                     extensions.last().unwrap().data(),
                     ExtensionData::MandatoryData(..)
                 )
